@@ -59,6 +59,22 @@ structure Env where
   /-- the cells whose space's namespace contains the reference (the cells that can read it by
   global name): those `BaseNamespaceReferrer`s are notified when the reference changes -/
   observers : RefId → List CellId := fun _ => []
+  /-- does the cells exist now?  A cells that was deleted, or is not created yet, is not alive:
+  its name is in no namespace (a call from a formula fails in the CALLER: `NameError` for a global
+  name, `AttributeError` for an attribute path - no frame is pushed, nothing is recorded) -/
+  alive : CellId → Bool := fun _ => true
+  /-- the cells of the space of cells `c`, `c` included: the `BaseNamespaceReferrer`s notified when
+  `c` is created in / deleted from the cells container of its space -/
+  siblings : CellId → List CellId := fun _ => []
+
+/-- what the caller of a cells that does not exist gets: `NameError` (kind 4 of `Err.user`; a
+formula spelling the call through an attribute path turns it into `AttributeError` itself) -/
+def errDead : Err := .user 4
+
+/-- the answer a formula gets when it calls `n`: the callee's result, or the error of a name
+that is not bound when the cells does not exist -/
+def calleeAt (env : Env) (callee : Node → Res × Bool) (n : Node) : Res × Bool :=
+  if env.alive n.1 then callee n else (.err errDead, false)
 
 /-- `Impl.get_property("allow_none")` (modelx/core/base.py): the nearest setting that is not
 `None`, looked up cells → space → model; the model always has one (`ModelImpl.__init__` sets
@@ -88,8 +104,8 @@ def denoteBody (env : Env) (callee : Node → Res × Bool) : Prog → Res × Boo
   | .reraise e => (.err e, false)
   | .read _ r k => denoteBody env callee (k (env.refs r))
   | .call n k =>
-    ((denoteBody env callee (k (callee n).1)).1,
-     (callee n).2 || (denoteBody env callee (k (callee n).1)).2)
+    ((denoteBody env callee (k (calleeAt env callee n).1)).1,
+     (calleeAt env callee n).2 || (denoteBody env callee (k (calleeAt env callee n).1)).2)
 
 /-- `inputs` are the values assigned by the user: they are what a (cached) cells returns for
 those arguments whatever the formula; an uncached cells never consults its data. -/
